@@ -441,3 +441,219 @@ pub fn or_contract(this: ErrorKind, other: ErrorKind) -> ErrorKind {
         other
     }
 }
+
+// ---------------------------------------------------------------------------------------------
+// drop-counting payloads of four layouts (C13): zero-sized, 1 byte, heap-owning, over-aligned
+// ---------------------------------------------------------------------------------------------
+pub static mut DROPS: [u8; 5] = [0; 5];
+pub static mut LAST_DROPPED: [u8; 5] = [0; 5];
+pub fn drops(i: usize) -> u8 {
+    unsafe { DROPS[i] }
+}
+pub fn last_dropped(i: usize) -> u8 {
+    unsafe { LAST_DROPPED[i] }
+}
+pub trait Tracked: Mk + Compound {
+    const IX: usize;
+}
+pub struct D0;
+pub struct D1(pub u8);
+pub struct DH(pub Box<u8>);
+#[repr(align(64))]
+pub struct DA(pub u8);
+/// multi-word payload with a self-check (detects torn / partial swaps). Not over-aligned: Kani 0.68 reports a
+/// spurious "misaligned pointer to reference cast" for `&mut *UnsafeCell<dyn Any>::get()` when the payload's
+/// alignment exceeds 8 (its allocation model ignores the requested alignment; the same harness passes natively
+/// under Miri), so over-aligned payloads are only used where no `dyn` place is dereferenced mutably.
+pub struct DW(pub u8, pub u64);
+impl Mk for D0 {
+    fn mk(_b: u8) -> Self {
+        D0
+    }
+    fn val(&self) -> u8 {
+        0
+    }
+}
+impl Mk for D1 {
+    fn mk(b: u8) -> Self {
+        D1(b)
+    }
+    fn val(&self) -> u8 {
+        self.0
+    }
+}
+impl Mk for DH {
+    fn mk(b: u8) -> Self {
+        DH(Box::new(b))
+    }
+    fn val(&self) -> u8 {
+        *self.0
+    }
+}
+impl Mk for DW {
+    fn mk(b: u8) -> Self {
+        DW(b, (b as u64) * 0x0101_0101_0101_0101)
+    }
+    fn val(&self) -> u8 {
+        if self.1 == (self.0 as u64) * 0x0101_0101_0101_0101 {
+            self.0
+        } else {
+            panic!("torn multi-word value")
+        }
+    }
+}
+impl Mk for DA {
+    fn mk(b: u8) -> Self {
+        DA(b)
+    }
+    fn val(&self) -> u8 {
+        self.0
+    }
+}
+macro_rules! tracked {
+    ($t:ident, $i:expr) => {
+        impl Drop for $t {
+            fn drop(&mut self) {
+                unsafe {
+                    DROPS[$i] += 1;
+                    LAST_DROPPED[$i] = self.val();
+                }
+            }
+        }
+        impl Compound for $t {
+            fn load(_cache: AnyCache, _id: &SharedString) -> Result<Self, BoxedError> {
+                Err(Box::new(BadErr))
+            }
+        }
+        impl Tracked for $t {
+            const IX: usize = $i;
+        }
+    };
+}
+tracked!(D0, 0);
+tracked!(D1, 1);
+tracked!(DH, 2);
+tracked!(DA, 3);
+tracked!(DW, 4);
+
+pub fn par1() -> io::Result<std::num::NonZeroUsize> {
+    match std::num::NonZeroUsize::new(1) {
+        Some(n) => Ok(n),
+        None => unreachable!(),
+    }
+}
+
+/// Scenario obligations of the map contract, instantiated inside each real map's module (they use the
+/// module-private `AssetMap::{new,take,remove,clear}`): the real map must behave like the contract map.
+macro_rules! real_map_scenarios {
+    () => {
+        fn ptr(h: &UntypedHandle) -> *const () {
+            h as *const UntypedHandle as *const ()
+        }
+        fn a_val(h: &UntypedHandle) -> u8 {
+            match h.downcast_ref::<A>() {
+                Some(h) => h.read().0,
+                None => panic!("C13 entry stored under A's key is not an A"),
+            }
+        }
+        /// first-writer-wins: insert on a present key keeps the first value and address
+        fn m_first_writer_wins() {
+            let m = AssetMap::new();
+            let (v, w): (u8, u8) = (nd(), nd());
+            assert!(m.get("a", tid(0)).is_none() && !m.contains_key("a", tid(0)), "C02 a new map is empty");
+            let h1 = ptr(m.insert(CacheEntry::new(A(v), "a".into(), || false)));
+            let h2 = m.insert(CacheEntry::new(A(w), "a".into(), || false));
+            assert!(ptr(h2) == h1, "C01 insert on a present key returns the existing handle");
+            assert!(a_val(h2) == v, "C01/C02 first writer wins: the stored value is never overwritten");
+            match m.get("a", tid(0)) {
+                Some(h) => assert!(ptr(h) == h1 && a_val(h) == v, "C01 get returns the one stable handle"),
+                None => assert!(false, "C01 presence never flips back to absent"),
+            }
+            assert!(m.contains_key("a", tid(0)), "C02 contains_key agrees with get");
+            std::mem::forget(m);
+        }
+        /// two ids of one type: independent entries; take/remove delete exactly what they name
+        fn m_two_ids() {
+            let mut m = AssetMap::new();
+            let (v, w): (u8, u8) = (nd(), nd());
+            let ha = ptr(m.insert(CacheEntry::new(A(v), "a".into(), || false)));
+            let hb = ptr(m.insert(CacheEntry::new(A(w), "b".into(), || false)));
+            assert!(ha != hb, "C02 different ids are different entries");
+            match (m.get("a", tid(0)), m.get("b", tid(0))) {
+                (Some(x), Some(y)) => assert!(ptr(x) == ha && ptr(y) == hb && a_val(x) == v && a_val(y) == w, "C01 handles stay valid while other entries are inserted"),
+                _ => assert!(false, "C02 both entries are present"),
+            }
+            match m.take("a", tid(0)) {
+                Some(e) => {
+                    let (val, id) = e.into_inner::<A>();
+                    assert!(val.0 == v && &*id == "a", "C02 take hands back the stored value of the named key");
+                }
+                None => assert!(false, "C02 take of a present key"),
+            }
+            assert!(!m.contains_key("a", tid(0)) && m.get("a", tid(0)).is_none(), "C02 take removes the named key");
+            match m.get("b", tid(0)) {
+                Some(y) => assert!(ptr(y) == hb && a_val(y) == w, "C02 take leaves other entries alone"),
+                None => assert!(false, "C02 take deleted an entry it did not name"),
+            }
+            assert!(m.take("a", tid(0)).is_none(), "C02 take of an absent key is None");
+            assert!(m.remove("b", tid(0)), "C02 remove of a present key is true");
+            assert!(!m.remove("b", tid(0)) && !m.contains_key("b", tid(0)), "C02 remove of an absent key is false");
+            std::mem::forget(m);
+        }
+        /// same id, different types never affect each other
+        fn m_type_separation() {
+            let mut m = AssetMap::new();
+            let (v, w): (u8, u8) = (nd(), nd());
+            let ha = ptr(m.insert(CacheEntry::new(A(v), "a".into(), || false)));
+            assert!(m.get("a", tid(1)).is_none() && !m.contains_key("a", tid(1)), "C02 an entry is invisible under another type");
+            assert!(m.take("a", tid(1)).is_none() && !m.remove("a", tid(1)), "C02 take/remove under another type touch nothing");
+            assert!(m.contains_key("a", tid(0)), "C02 the entry survives operations on another type");
+            let hb = m.insert(CacheEntry::new(B(w), "a".into(), || false));
+            assert!(ptr(hb) != ha && hb.is::<B>(), "C02 same id, other type is its own entry");
+            match m.get("a", tid(0)) {
+                Some(x) => assert!(ptr(x) == ha && a_val(x) == v, "C02 inserting another type leaves the entry alone"),
+                None => assert!(false, "C02 entry lost"),
+            }
+            std::mem::forget(m);
+        }
+        /// clear deletes everything
+        fn m_clear() {
+            let mut m = AssetMap::new();
+            let _ = m.insert(CacheEntry::new(A(nd()), "a".into(), || false));
+            let _ = m.insert(CacheEntry::new(A(nd()), "b".into(), || false));
+            m.clear();
+            assert!(!m.contains_key("a", tid(0)) && !m.contains_key("b", tid(0)) && m.get("a", tid(0)).is_none(), "C02 clear removes every entry");
+            let v: u8 = nd();
+            let h = m.insert(CacheEntry::new(A(v), "a".into(), || false));
+            assert!(a_val(h) == v, "C02 a cleared key can be re-created");
+            std::mem::forget(m);
+        }
+        /// drop ledger through the map: loser of an insert dropped once, take hands over, clear / drop of the map drop once
+        fn m_take_tracked() {
+            let mut m = AssetMap::new();
+            let d0 = drops(2);
+            let _ = m.insert(CacheEntry::new(DH::mk(1), "a".into(), || false));
+            let _ = m.insert(CacheEntry::new(DH::mk(2), "a".into(), || false));
+            assert!(drops(2) == d0 + 1 && last_dropped(2) == 2, "C13 the value that loses an insertion is dropped exactly once, immediately");
+            let _ = m.insert(CacheEntry::new(DH::mk(3), "b".into(), || false));
+            match m.take("a", tid_dh()) {
+                Some(e) => {
+                    assert!(drops(2) == d0 + 1, "C13 take does not drop the value it returns");
+                    let (val, _id) = e.into_inner::<DH>();
+                    assert!(*val.0 == 1);
+                    std::mem::forget(val);
+                }
+                None => assert!(false, "C02 take of a present key"),
+            }
+            m.clear();
+            assert!(drops(2) == d0 + 2 && last_dropped(2) == 3, "C13 clear drops every stored value exactly once");
+            let _ = m.insert(CacheEntry::new(DH::mk(4), "b".into(), || false));
+            drop(m);
+            assert!(drops(2) == d0 + 3 && last_dropped(2) == 4, "C13 dropping the map drops every stored value exactly once");
+        }
+    };
+}
+pub(crate) use real_map_scenarios;
+pub fn tid_dh() -> TypeId {
+    TypeId::of::<DH>()
+}
